@@ -221,7 +221,7 @@ pub fn run_child(ctx: &mut Ctx) {
         let shards_tok = if g.shard_log.is_empty() { "-".to_string() } else { g.shard_log.iter().map(|(l, ok)| format!("{}.{}", l, *ok as u8)).collect::<Vec<_>>().join("/") };
         let mut bt: Vec<String> = btrace.iter().map(|t| if let Some(id) = t.strip_prefix('R') { format!("r1:{}", size_of(&task_hash[id.parse::<usize>().unwrap()])) } else { t.clone() }).collect();
         bt.push(format!("f{}:{}:{}:{}", last_ne as u8, last_sz, if rest.is_empty() { "-".to_string() } else { rest.clone() }, shards_tok));
-        let impl_bytes = match &fin { Ok(m) => format!("final=ok xorb={} shard={}", m.xorb_bytes_uploaded, m.shard_bytes_uploaded), Err(_) => "final=err xorb=none shard=none".to_string() };
+        let impl_bytes = match &fin { Ok(m) => format!("final=ok xorb={} shard={} total={}", m.xorb_bytes_uploaded, m.shard_bytes_uploaded, m.total_bytes_uploaded), Err(_) => "final=err xorb=none shard=none total=none".to_string() };
         let breplay = format!("{{\"suite\":\"session_faults\",\"seed\":{},\"scenario\":{},\"trace\":\"{}\"}}", ctx.seed, sc, bt.join(","));
         if let Ok(m) = &fin {
             let store_xorb: usize = g.put_sizes.iter().map(|e| e.1).sum();
